@@ -6,6 +6,7 @@ import (
 	"math/big"
 	"strings"
 	"testing"
+	"time"
 
 	"github.com/peterstace/simplefeatures/geom"
 	"pgregory.net/rapid"
@@ -205,7 +206,7 @@ func c01CheckResult(name string, ov *exact.Overlay, ex exact.Expect, resG geom.G
 	}
 	// (3) nothing extra: measures
 	mag := ar.Magnitude()
-	if mag < 1 {
+	if mag == 0 {
 		mag = 1
 	}
 	gotArea := exact.RatFloat(rg.Area())
@@ -232,6 +233,9 @@ func inOut(b bool) string {
 }
 
 func c01Check(c C01Case, cx *h.Ctx) *h.Failure {
+	// cost accounting only (reported in the evidence; never part of a verdict)
+	t0 := time.Now()
+	defer func() { cx.Count("check_ms_family="+c.Family, time.Since(t0).Milliseconds()) }()
 	ea, eb := exact.MustFromModel(c.A), exact.MustFromModel(c.B)
 	cx.Class("pair=" + c.A.T + "/" + c.B.T)
 	cx.Class("family=" + c.Family)
@@ -240,7 +244,7 @@ func c01Check(c C01Case, cx *h.Ctx) *h.Failure {
 	ov := exact.NewOverlay(ea, eb)
 	strict := pairStrict(ov.Ar)
 	mag := ov.Ar.Magnitude()
-	if mag < 1 {
+	if mag == 0 {
 		mag = 1
 	}
 	tau := 1e-9 * mag
@@ -339,7 +343,7 @@ func c01Check(c C01Case, cx *h.Ctx) *h.Failure {
 				return fail(h.Failf("overlay/error", "UnionMany(%d operands) returned an error: %v", len(lst), err))
 			}
 			amag := aov.Ar.Magnitude()
-			if amag < 1 {
+			if amag == 0 {
 				amag = 1
 			}
 			if f := c01CheckResult(fmt.Sprintf("UnionMany(%d operands)", len(lst)), aov, aov.Expect(exact.OpUnion), res, 1e-9*amag, cx); f != nil {
